@@ -232,7 +232,15 @@ def run(ctx):
         names = [mir.trace_const(bs[0], t["args"][-1]) for _, t in mir.calls(bs[0]) if (mir.callee_path(t) or "").endswith("::" + kind)]
         names = [c.get("str") for c in names if c]
         n += 1
-        if names == [want]:
+        # no shortcut: every path returns that one application to the operands, in order
+        syms = [Sym("a"), Sym("b")][:bs[0]["arg_count"]]
+        rps = [p for p in Interp(fb, _P()).run(bs[0], syms) if p.status not in ("unreachable",)]
+        pat = r"^(ok\()?expression::deep::(DeepEx::<'a, T, OF, LM>|detail)::%s\(%s, '%s'\)\)?$" % (kind, ", ".join(x.name for x in syms), re.escape(want))
+        odd = [p for p in rps if not (p.status == "return" and re.match(pat, show(p.result)))]
+        if names == [want] and odd:
+            chk.violation("R10.2", "shortcut:%s" % meth, "%s::%s has a path that does not return %s(operands, %r): %s" % (
+                trait, meth, kind, want, show(odd[0].result)[:120] if odd[0].result is not None else odd[0].status), loc(bs[0]["span"]))
+        elif names == [want]:
             chk.ok("R10.2", "%s -> %s(%r)" % (trait, kind, want), "", loc(bs[0]["span"]))
         else:
             chk.violation("R10.2", "name:%s" % meth, "%s::%s applies %s, expected %s(%r)" % (trait, meth, names, kind, want), loc(bs[0]["span"]))
